@@ -120,7 +120,43 @@ func genBacklogScenario(t *rapid.T) Scenario {
 	return sc
 }
 
+// genBlockedWriteScenario: an upstream that accepts the connection and then never reads, and more data for one key set
+// than the socket buffers of a loopback connection hold (about 4 MB): the client's write blocks in the middle of a chunk.
+// The stop arrives while it is blocked (or after the send deadline has passed and the client is retrying).
+func genBlockedWriteScenario(t *rapid.T) Scenario {
+	var sc Scenario
+	sc.Family = "blocked-write"
+	sc.Modes = []string{rapid.SampledFrom([]string{"Forward", "PackedForward"}).Draw(t, "mode")} // uncompressed: the volume counts
+	sc.MemWindow = rapid.SampledFrom([]int{16, 64}).Draw(t, "memWindow")
+	// few big chunks (a dozen unacknowledged chunks is all the client ever has in flight); with the 6 MB limit and a long
+	// flush interval the very first chunk is larger than the socket buffers, so the write blocks with nothing pending at
+	// the acknowledger: only the send deadline or the stop can end it
+	sc.ChunkBytes = rapid.SampledFrom([]int{1000000, 6000000, 6000000}).Draw(t, "chunkBytes")
+	if sc.ChunkBytes > 1000000 {
+		sc.FlushMs = 600
+	}
+	sc.BatchLogs = 500
+	var gen Generation
+	cs := ConnSpec{Close: "graceful", Bulk: rapid.IntRange(1900, 2600).Draw(t, "bulk")}
+	cs.Recs = []Rec{{Size: 100}}
+	gen.Conns = []ConnSpec{cs}
+	n := rapid.IntRange(1, 3).Draw(t, "attempts")
+	var ups []vh.UpstreamAttempt
+	for i := 0; i < n; i++ {
+		ups = append(ups, vh.UpstreamAttempt{Kind: "stopreading"})
+	}
+	ups = append(ups, vh.UpstreamAttempt{Kind: "stopreading"}, vh.UpstreamAttempt{Kind: "stopreading"}, vh.UpstreamAttempt{Kind: "stopreading"})
+	gen.Upstream = [][]vh.UpstreamAttempt{ups}
+	gen.Down = []bool{false}
+	gen.StopAfter = rapid.SampledFrom([]int{0, 20, 100, 250, 400, 700}).Draw(t, "stopAfter")
+	sc.Gens = []Generation{gen, {StopAfter: 4000, Upstream: [][]vh.UpstreamAttempt{nil}, Down: []bool{false}}}
+	return sc
+}
+
 func genScenario(t *rapid.T, focus string) Scenario {
+	if (focus == "C18" || focus == "C01") && rapid.IntRange(0, 7).Draw(t, "blocked") == 0 {
+		return genBlockedWriteScenario(t)
+	}
 	if rapid.IntRange(0, 3).Draw(t, "family") == 0 {
 		return genBacklogScenario(t)
 	}
@@ -222,6 +258,12 @@ func classify(sc Scenario, o *Outcome) (bool, []string) {
 	add(down, "upstream-down")
 	add(mid, "stop-mid-traffic")
 	add(sc.Family == "backlog", "backlog-being-worked-off-at-stop(family)")
+	add(sc.Family == "blocked-write", "upstream-never-reads-and-more-data-than-the-socket-buffers(family)")
+	if sc.Family == "blocked-write" && len(o.Stops) > 0 {
+		m := o.Stops[0].Metrics
+		add(m.Sum("slogagent_process_output_forward_attempts_total") > m.Sum("slogagent_process_output_forwarded_chunks_total"), "a-send-did-not-complete(blocked mid-write, measured)")
+		add(m.Sum("slogagent_process_output_forward_attempts_total") > 0 && m.Sum("slogagent_process_output_forwarded_chunks_total") == 0, "first-send-blocked-with-nothing-awaiting-ack(measured)")
+	}
 	add(sc.TinyQuota, "tiny-quota")
 	add(len(sc.Modes) > 1, "two-outputs")
 	add(sc.KeyHost, "two-key-fields")
